@@ -174,7 +174,9 @@ func (p *Packer) Pack(src string, w io.Writer) (*Meta, error) {
 				target = proper
 			}
 		}
-		src = target
+		// Without a trailing separator or dot segments, so that Lstat sees the
+		// next link of a chain instead of looking through it.
+		src = filepath.Clean(target)
 		info, err = os.Lstat(src)
 		if err != nil {
 			return nil, err
